@@ -58,7 +58,7 @@ def run_units(units, extra_args=(), timeout=3000, extra_env=None):
         shutil.rmtree(tmp, ignore_errors=True)
     return out
 
-def native(driver, scenario, timeout=300, prop=None):
+def native(driver, scenario, timeout=300, prop=None, drop_known_keys=False):
     """run a replay driver on the real code under the repository's interpreter"""
     path = os.path.join(ROOT, 'replay', driver + '.py')
     if not os.path.exists(path): return {'reproduced': False, 'note': f'no replay driver {driver}'}
@@ -73,8 +73,9 @@ def native(driver, scenario, timeout=300, prop=None):
         if prop and isinstance(r.get('failures'), list) and all(isinstance(f, dict) and 'failed_clauses' in f for f in r['failures']):
             # keep only the natively failing clauses that speak about this property and are not an already listed open finding
             pats = [re.compile(kf['native_clause']) for kf in load_known() if kf.get('status') == 'open' and kf.get('native_clause')]
-            kept = []
+            kept = []; keys = [re.compile(kf['native_key']) for kf in load_known() if kf.get('status') == 'open' and kf.get('native_key')] if drop_known_keys else []
             for f in r['failures']:
+                if any(kp.search(str(f.get('key', ''))) for kp in keys): continue          # the specific input of an open known finding
                 cl = [c for c in f['failed_clauses'] if prop in c.split(':')[0] and not any(pt.search(c) for pt in pats)]
                 if cl: kept.append(dict(f, failed_clauses=cl))
             r['n_failures_before_filter'] = r.get('n_failures', len(r['failures'])); r['failures'] = kept; r['reproduced'] = bool(kept); r['n_failures'] = len(kept)
@@ -142,7 +143,7 @@ def main():
     for o in und: und_names.setdefault(o['name'], o)
     for name, o in und_names.items():
         drv = (o.get('replay') or {}).get('driver')
-        nat = native(drv, {kx: vx for kx, vx in (o.get('replay') or {}).items() if kx != 'driver'}, prop=pid) if drv else {'reproduced': False}
+        nat = native(drv, {kx: vx for kx, vx in (o.get('replay') or {}).items() if kx != 'driver'}, prop=pid, drop_known_keys=True) if drv else {'reproduced': False}
         if nat.get('reproduced'):
             o['status'] = 'refuted'; o['raw'] = 'unknown (solver) + failing input found by the native bounded search'; o['witness'] = {}; refuted.setdefault(name, []).append(o)
             for x in und:
@@ -154,7 +155,7 @@ def main():
         o = next((x for x in os_ if x.get('witness')), os_[0])
         drv = (o.get('replay') or {}).get('driver')
         scenario = dict(o.get('witness') or {}); scenario.update({kx: vx for kx, vx in (o.get('replay') or {}).items() if kx != 'driver'})
-        nat = native(drv, scenario, prop=pid) if drv else {'reproduced': False, 'note': 'obligation has no input-level counterexample (no native driver)'}
+        nat = native(drv, scenario, prop=pid, drop_known_keys=True) if drv else {'reproduced': False, 'note': 'obligation has no input-level counterexample (no native driver)'}
         rel = f"replays/{pid}-{slug(name)}.json"
         json.dump({'property': pid, 'obligation': name, 'unit': o['unit'], 'paths_refuted': len(os_), 'solver': o['solver'], 'solver_verdict': o['raw'], 'driver': drv, 'scenario': scenario,
                    'model_excerpt': o.get('model_excerpt'), 'native': nat, 'functions': [f for f in functions if f['unit'] == o['unit']],
